@@ -5,7 +5,7 @@
    round-trips (Python's contract), the GPX/XML layer and the network CSV layer (oracle streams only); the WKT layer is proved at the
    level of tokens (C13_wkt_tokens). *)
 From Coq Require Import List Ascii String ZArith QArith Qabs Bool Lia.
-From TL Require Import Model.TextFmt Proofs.Columns Proofs.TimeText Model.CsvText Model.WktText Proofs.FixedText Proofs.CsvLine Proofs.WktText.
+From TL Require Import Model.TextFmt Proofs.Columns Proofs.TimeText Model.CsvText Model.WktText Proofs.FixedText Proofs.CsvLine Proofs.CsvFile Proofs.WktText.
 Import ListNotations.
 Close Scope Z_scope.
 Close Scope Q_scope.
@@ -43,6 +43,18 @@ Theorem C13_csv_line w p idE idN idU idT c x y z t :
   (forall k, idT = Some k -> read_time (nth k fs "") = t).
 Proof. exact (csv_line_roundtrip w p idE idN idU idT c x y z t). Qed.
 Print Assumptions C13_csv_line.
+
+(* the whole CSV file: header / comment lines, then one line per observation, every line ended by a newline; read back with the same
+   header count (the reader skips h lines, then strips each line, skips comment lines and stops at the first empty one): exactly
+   the observation lines - as many as observations, in the same order; C13_csv_line then reads each of them *)
+Theorem C13_csv_file w p idE idN idU idT c h hdr (obs : list (Q * Q * Q * stamp)) :
+  distinct (ids_of idE idN idU idT) = true ->
+  forallb (fun i => Nat.ltb i (List.length (ids_of idE idN idU idT))) (ids_of idE idN idU idT) = true ->
+  sep_ok c = true -> c <> nl -> Forall (fun o => stamp_ok (snd o)) obs ->
+  h <= List.length hdr -> Forall hdr_ok hdr ->
+  read_file h (write_file hdr (map (obs_line w p idE idN idU idT c) obs)) = map (obs_line w p idE idN idU idT c) obs.
+Proof. exact (csv_file_roundtrip w p idE idN idU idT c h hdr obs). Qed.
+Print Assumptions C13_csv_file.
 
 (* Track.toWKT then TrackReader.parseWkt: the same coordinate tokens (upper-cased, as parseWkt does: 1e-05 becomes 1E-05, the same
    number), in the same order, for every non-empty list of points whose tokens contain no parenthesis, comma or space *)
